@@ -29,7 +29,7 @@ PROOF_FILES = ["theories/Props/C03.v", "theories/Proofs/SupportA.v", "theories/P
 FUEL = 100000
 DIR_CLASSES = ["random", "random", "axis", "sign", "sign", "pow2", "pow2", "shape_axis", "shape_orth"]
 EPS10 = Fr(10) / Fr(2 ** 52)
-CERTS_PER_GROUP = 5   # answers per case and observable submitted to the Coq checker (feature directions first)
+CERTS_PER_GROUP = 4   # answers per case and observable submitted to the Coq checker (feature directions first)
 MESH_CONE_BUDGET = dict(quick=12, thorough=80)   # meshes per run whose cone certificate is built and checked
 MESH_CONE_HEADER = """From Coq Require Import QArith List.
 From D3 Require Import Base.Vec Checker.Shapes Checker.ShapesMeshCone.
@@ -362,17 +362,6 @@ def judge_member(sh, p, L, what):
     return [] if ok else [f"{what}: not within 1e-9*L of the set ({det})"]
 
 
-def unused_vertex_keyerror(case, r):
-    """input-class predicate of finding F-M2: MeshGraph.support_function raised KeyError AND the mesh has a
-    vertex that no triangle uses which ties for (or attains) an extreme coordinate, so that
-    shortcut_connections (argmax / argmin over ALL vertices) names a vertex without adjacency entry"""
-    sh = case["shape"]
-    if sh["kind"] != "mesh" or r.get("exc") != "KeyError" or "connections" not in r:
-        return False
-    keys = {int(k) for k, _ in r["connections"]}
-    return any(int(i) not in keys for i in r.get("shortcuts", []))
-
-
 def judge_case(case, r):
     """All property failures of one case (implementation answers only)."""
     sh = case["shape"]
@@ -653,6 +642,7 @@ def run(tier, seed, replay=None):
         "certificates speak about the shape expression of harness/narrow.py: c + sum of segments / ellipsoidal discs whose axis vectors are the binary64 products size*column (relative 1.1e-16 from the exact products), the disk frame is completed in floating point; this perturbs the set by < 1e-15*L, far below 1e-9*L",
         "membership 'within 1e-9*L of the set' in the Python oracle is tested in exact local coordinates M^-1 (p - c); for the cone the tolerance is scaled by (1 + r/h), for ellipsoid / ellipse by the gauge (tau / smallest radius); the Coq certificate uses the Euclidean distance to an explicit point of the set",
         "IEEE rounding is not modelled by the theorems; its effect is only measured here against 1e-9*L",
+        "model limitation (same root as known finding C20-NORM-UNDERFLOW): numba lowers np.linalg.norm to BLAS nrm2, which does not underflow, whereas the model (like interpreted numpy) computes sqrt(sum of squares): for non-zero d with |d| < ~1e-162 the binary64 model takes the `norm == 0` arm and the compiled code the division arm; for |d| <= 1e-150 only the support VALUE is compared (both are within 1e-9*L of the maximum, the points differ); coverage.interpreted_vs_compiled_differences counts these queries (the 'underflow' feature direction of every case)",
         "mesh hill climbing: the global-maximum theorem carries the hypothesis LocalMaxGlobal on the input mesh (see Props/C03.v); for the generated meshes (up to a budget, <= 30 vertices) that hypothesis is PROVED per mesh by a cone certificate checked in Coq (coverage.mesh_cone_certificates: C03_mesh_cone_cert_sound, all directions at once); coverage.local_max_global additionally reports, per mesh and direction, the exact smallest delta for which LocalMaxGlobal / LocalMaxGlobalS hold; scipy's ConvexHull (inside make_convex_mesh) is used to build inputs",
         "coverage.impl_line_coverage: source lines of /repo executed by this run's inputs (interpreted re-execution of the numba functions' source under sys.settrace in the workers)",
         "harness/compat.py import shim; numpy/numba/CPython/BLAS",
@@ -681,8 +671,6 @@ def run(tier, seed, replay=None):
     unbuilt = 0
     judged_ok = {}
     fails_by_case = {}
-    known = {e["id"]: e for e in cm.load_known(PID)}
-    known_counts = {}
     for ci, (c, r) in enumerate(zip(cases, results)):
         if "build_exc" in r:
             unbuilt += 1
@@ -690,19 +678,13 @@ def run(tier, seed, replay=None):
         n_eval += len(c["dirs"]) * (2 if c["shape"]["kind"] == "mesh" else 1)
         f = judge_case(c, r)
         fails_by_case[ci] = f
-        if f and unused_vertex_keyerror(c, r) and "F-M2" in known:
-            R.known_finding("F-M2", known["F-M2"]["what"])
-            known_counts["F-M2"] = known_counts.get("F-M2", 0) + 1
-        elif f:
-            if unused_vertex_keyerror(c, r):
-                f = [f[0] + " [class F-M2: a vertex used by no triangle is a shortcut; not registered in known_findings.json]"]
+        if f:
             bad.append((c, f))
         else:
             judged_ok[ci] = True
     R.cov["evaluations"] = n_eval
     R.cov["cases"] = len(cases)
     R.cov["cases_not_constructible"] = unbuilt
-    R.cov["known_finding_failures"] = known_counts
     npy = sum(len(r.get("pyfunc_diff") or []) for r in results)
     R.cov["interpreted_vs_compiled_differences"] = npy
     pyexc = [r["pyfunc_exc"] for r in results if r.get("pyfunc_exc")]
